@@ -53,9 +53,8 @@ def convergenceFail (tz : Int) (files : List FileJ) (pems : List PemJ) (ranks : 
             let dummyKey : Gen.PrivKey := ⟨0, 1, ⟨⟨[], none⟩, ⟨[], 0⟩⟩⟩
             let oracle : Gen.Oracle := ⟨((actual.bind fun c => X509.decInt c.tbs.serialContent).getD 0).toNat, (keyJ.bind KeyJ.toPriv).getD dummyKey⟩
             let s' := s.update e.alias_ fun x => { x with content := eff }
-            match Db.generateArtifacts s' e.alias_ oracle, actual with
-            | .ok g, some c =>
-              let tbsModel := (Gen.tbsTlv g.tbs).toOption.map Tlv.enc
+            -- the chain clauses need only the certificate and the directory
+            let chainCheck (c : X509.Certificate) : Option (String × Json) :=
               let issuerSubjectEnc : Option Bytes :=
                 if eff.issuer.isEmpty then some c.tbs.subject.enc
                 else (((s.find eff.issuer).bind fun i => pems.find? (·.path = artifactFileName i.configPath)).bind (·.cert)).bind fun ic =>
@@ -65,32 +64,50 @@ def convergenceFail (tz : Int) (files : List FileJ) (pems : List PemJ) (ranks : 
                 | some i => decide (ranks pemPath > ranks (artifactFileName i.configPath))
                 | none => false
               if issuerSubjectEnc != some c.tbs.issuer.enc then
-                fail := some "C01: after the history the issuer DN of a certificate gopki produced is not its issuer's current subject DN"
-                ft := Json.mkObj [("childFileNewerThanIssuerFile", childNewer)]
-              else if tbsModel != some c.tbs.raw.enc then
-                -- the known blind spot of the hash (C13): run-relative validity is not hashed
-                let tbsSameButUntil := (Gen.tbsTlv { g.tbs with notAfter := c.tbs.notAfter }).toOption.map Tlv.enc
-                if tbsSameButUntil == some c.tbs.raw.enc && !(eff.validity.isStatic && eff.validity.isSet) then
-                  fail := some "C12: a certificate gopki produced keeps an outdated notAfter: `until`/`duration` of a validity without `from` is not part of the configuration hash"
-                else
-                  fail := some "C12: a certificate gopki produced differs from what a run from scratch would produce for the current configuration"
+                some ("C01: after the history the issuer DN of a certificate gopki produced is not its issuer's current subject DN",
+                      Json.mkObj [("childFileNewerThanIssuerFile", childNewer)])
               else
                 let self := eff.issuer.isEmpty
                 let issuerPem := (s.find eff.issuer).bind fun i => pems.find? (·.path = artifactFileName i.configPath)
-                let ownManip := eff.manipulations.tbsPublicKey.isSome || eff.manipulations.tbsPublicKeyAlgorithm.isSome
-                let issuerManip := match s.find eff.issuer with
-                  | some i => i.content.manipulations.tbsPublicKey.isSome || i.content.manipulations.tbsPublicKeyAlgorithm.isSome
-                  | none => false
                 let realKey (p : Option PemJ) : Option Nat := (p.bind (·.key)).map (·.id.toNat)
-                let _ := (ownManip, issuerManip)
                 let issuerKeyId : Option Nat :=
                   if self then (match realKey (some pj) with | some k => some k | none => some cj.subjectKey.toNat)
                   else match realKey issuerPem with | some k => some k | none => (issuerPem.bind (·.cert)).map (·.subjectKey.toNat)
                 let sigManip := eff.manipulations.signatureValue.isSome || eff.manipulations.signatureAlgorithm.isSome
                 if !sigManip && !(match issuerKeyId with | some k => (cj.verifiesUnder.getD []).contains k | none => false) then
-                  fail := some "C01: after the history a certificate gopki produced does not verify against its issuer's current certificate"
-                  ft := Json.mkObj [("childFileNewerThanIssuerFile", childNewer)]
-            | .error err, _ => fail := some s!"C12: model cannot regenerate {e.alias_}: {err}"
+                  some ("C01: after the history a certificate gopki produced does not verify against its issuer's current certificate",
+                        Json.mkObj [("childFileNewerThanIssuerFile", childNewer)])
+                else none
+            match Db.generateArtifacts s' e.alias_ oracle, actual with
+            | .ok g, some c =>
+              let tbsModel := (Gen.tbsTlv g.tbs).toOption.map Tlv.enc
+              match chainCheck c with
+              | some (cl, f) =>
+                if cl.startsWith "C01: after the history the issuer DN" || tbsModel == some c.tbs.raw.enc then
+                  fail := some cl; ft := f
+                else
+                  -- (the content clause comes first when the DN is right but the content is not)
+                  let tbsSameButUntil := (Gen.tbsTlv { g.tbs with notAfter := c.tbs.notAfter }).toOption.map Tlv.enc
+                  if tbsSameButUntil == some c.tbs.raw.enc && !(eff.validity.isStatic && eff.validity.isSet) then
+                    fail := some "C12: a certificate gopki produced keeps an outdated notAfter: `until`/`duration` of a validity without `from` is not part of the configuration hash"
+                  else
+                    fail := some "C12: a certificate gopki produced differs from what a run from scratch would produce for the current configuration"
+              | none =>
+                if tbsModel != some c.tbs.raw.enc then
+                  -- the known blind spot of the hash (C13): run-relative validity is not hashed
+                  let tbsSameButUntil := (Gen.tbsTlv { g.tbs with notAfter := c.tbs.notAfter }).toOption.map Tlv.enc
+                  if tbsSameButUntil == some c.tbs.raw.enc && !(eff.validity.isStatic && eff.validity.isSet) then
+                    fail := some "C12: a certificate gopki produced keeps an outdated notAfter: `until`/`duration` of a validity without `from` is not part of the configuration hash"
+                  else
+                    fail := some "C12: a certificate gopki produced differs from what a run from scratch would produce for the current configuration"
+            | .error err, some c =>
+              -- the directory as it stands cannot issue this certificate at all (e.g. the user replaced the issuer's
+              -- key by one of another family): there is no "run from scratch" to compare with; the chain clauses remain
+              if err.startsWith "cert: provided key is not compatible" || err.startsWith "cert: provided IssuerContext is nil" || err.startsWith "db: issuer" then
+                match chainCheck c with
+                | some (cl, f) => fail := some cl; ft := f
+                | none => pure ()
+              else fail := some s!"C12: model cannot regenerate {e.alias_}: {err}"
             | _, none => fail := some "C12: certificate not decodable"
         | _, _ => pure ()
   return fail.map (·, ft)
